@@ -143,11 +143,10 @@ AsRes(keys, S) ==      \* the result that lists the positions of S in ascending 
    under TLC): walk up the distinct key values until k positions are covered.  KnnPredMC checks
    NearSets, which is built on it, against the sorted formulation IsKnnDecl. *)
 CountLeq(keys, t) == Cardinality({ i \in 1..Len(keys) : keys[i] <= t })
+PickMin(v, lo, m) == IF v > lo /\ (m = -1 \/ v < m) THEN v ELSE m
 RECURSIVE MinAboveUpTo(_, _, _)
 MinAboveUpTo(keys, lo, j) ==      \* least key > lo among the first j positions; -1 if none (linear)
-    IF j = 0 THEN -1
-    ELSE LET m == MinAboveUpTo(keys, lo, j - 1)
-         IN  IF keys[j] > lo /\ (m = -1 \/ keys[j] < m) THEN keys[j] ELSE m
+    IF j = 0 THEN -1 ELSE PickMin(keys[j], lo, MinAboveUpTo(keys, lo, j - 1))
 MinAbove(keys, lo) == MinAboveUpTo(keys, lo, Len(keys))
 RECURSIVE KthFrom(_, _, _)
 KthFrom(keys, k, lo) == LET t == MinAbove(keys, lo)
